@@ -54,7 +54,7 @@ def graph_family():
     for lit in lits:
         out.append([(A, P, lit)])
     out.append([(A, P, lits[0]), (A, P, lits[14]), (A, Q, lits[17])])
-    iris = [EX + "b#c", EX + "dir/x", EX + "a_b-c", EX + "a(b)", EX + "x%20y", EX + "é", "http://other.org/x", "urn:x:y", EX + "1digit", EX + "end."]
+    iris = [EX + "dir/doc", EX + "dir/doc#frag", EX + "dir/doc?q=1", EX + "dir/y", EX + "dir/sub/z", EX + "dir/", EX + "top", EX + "dir/a:b", EX + "b#c", EX + "dir/x", EX + "a_b-c", EX + "a(b)", EX + "x%20y", EX + "é", "http://other.org/x", "urn:x:y", EX + "1digit", EX + "end."]
     for u in iris:
         out.append([(["I", u, None, None], P, A)])
         out.append([(A, P, ["I", u, None, None])])
@@ -116,7 +116,8 @@ def vectors(flags, maxdev):
             # mutually exclusive quoting / escaping / prefix choices
             s = set(c)
             if len(s & {"single-quote", "long-quote", "long-single-quote"}) > 1 or len(s & {"uchar", "Uchar", "raw"}) > 1 or \
-                    len(s & {"prefix", "sparql-prefix", "empty-prefix"}) > 1 or len(s & {"base", "sparql-base"}) > 1 or \
+                    len(s & {"prefix", "sparql-prefix", "empty-prefix"}) > 1 or len(s & {"base", "sparql-base"}) > 1 or len(s & {"file-base", "base", "sparql-base", "relative", "dot-relative"}) > 1 and "file-base" in s or \
+                    len(s & {"xml-file-base", "xml-base", "rdf-id"}) > 1 and "xml-file-base" in s or \
                     len(s & {"predicate-list", "semicolons"}) > 1 or len(s & {"anon", "nested-anon"}) > 1:
                 continue
             out.append(frozenset(c))
